@@ -12,6 +12,7 @@ import (
 	"context"
 	"fmt"
 	"math"
+	"strings"
 	"sync"
 	"testing"
 	"time"
@@ -37,6 +38,10 @@ type c12Lane struct {
 	// RetxMs > 0 (v5 subscriber, message with an expiry): the first copy is left unacknowledged, the connection is cut,
 	// and the session is resumed RetxMs later; the retransmission must carry the lifetime that is left THEN
 	RetxMs int `json:"retx_ms,omitempty"`
+	// Oversize (v5 subscriber that is offline or blocked): the subscriber announces Maximum Packet Size 256 and this many
+	// 600-byte messages are queued directly in front of the lane's message; they can never be sent and are dropped
+	// when the queue is read - the lane's message behind them is judged as always
+	Oversize int `json:"oversize,omitempty"`
 }
 
 type c12Scen struct {
@@ -67,6 +72,9 @@ func genC12(t *rapid.T) c12Scen {
 		}
 		if l.SubV == 5 && l.E > 0 && rapid.IntRange(0, 2).Draw(t, "retx") == 0 {
 			l.RetxMs = rapid.SampledFrom([]int{400, 1500, 2600}).Draw(t, "retxms")
+		}
+		if l.SubV == 5 && l.Mode != "online" && rapid.IntRange(0, 3).Draw(t, "oversize") == 0 {
+			l.Oversize = rapid.IntRange(1, 2).Draw(t, "noversize")
 		}
 		s.Lanes = append(s.Lanes, l)
 	}
@@ -185,6 +193,9 @@ func runC12(s c12Scen, c *ev.Case) *ev.Violation {
 				if rm > 0 {
 					opts.Props.ReceiveMax = u16p(uint16(rm))
 				}
+				if l.Oversize > 0 {
+					opts.Props.MaxPacketSize = u32p(256)
+				}
 			}
 			cl, ack, err := b.Connect(opts)
 			if err != nil || ack.ReasonCode != 0 {
@@ -240,6 +251,12 @@ func runC12(s c12Scen, c *ev.Case) *ev.Violation {
 		if l.IdleMs > 0 {
 			time.Sleep(time.Duration(l.IdleMs) * time.Millisecond)
 			o.labels = append(o.labels, "idle_subscriber")
+		}
+		if l.Oversize > 0 && l.SubV == 5 && l.Mode != "online" {
+			for k := 0; k < l.Oversize && k < 4; k++ {
+				b.Srv.Publisher().Publish(&gmqtt.Message{Topic: topic, QoS: 1, Payload: []byte(fmt.Sprintf("L%d-big%d-%s", i, k, strings.Repeat("x", 600)))})
+			}
+			o.labels = append(o.labels, "behind_oversize_messages")
 		}
 		t0 := time.Now()
 		if l.Pub == "api" {
@@ -440,6 +457,6 @@ func runC12(s c12Scen, c *ev.Case) *ev.Violation {
 }
 
 func TestC12Expiry(t *testing.T) {
-	ev.SetRule("C12", "timed lanes: per case one broker with configured message lifetime cap {off,1s,2s,1h} and 6-10 concurrent independent lanes: publisher v5 (expiry absent/1/2/3/5/100 s), v3.1.1 or Publisher API; subscriber v3.1.1/v5 that is online, offline for w, or window-blocked (Receive Maximum 1, previous message unacknowledged) for w, w in {0.4,1.5,2.6 s}. Each lane bounds the broker-side waiting time by its own monotonic timestamps [t(reconnect/ack sent) - t(publish acked), t(delivery or drop report) - t(publish sent)] and asserts 'not delivered + reported expired' only if the lower bound exceeds the lifetime by 300 ms, 'delivered' only if the upper bound is 300 ms below it (otherwise timing_inconclusive); forwarded expiry for v5 subscribers must be present, <= original and within [E-ceil(w_hi), E-floor(w_lo)]. Non-trivial lane: lifetime set and w >= 0.4 s with a waiting subscriber, or a v5 subscriber receiving a message published with an expiry; cases are distinct by scenario digest, lanes are counted separately.")
+	ev.SetRule("C12", "timed lanes: per case one broker with configured message lifetime cap {off,1s,2s,1h} and 6-10 concurrent independent lanes: publisher v5 (expiry absent/1/2/3/5/100 s), v3.1.1 or Publisher API; subscriber v3.1.1/v5 that is online, offline for w, or window-blocked (Receive Maximum 1, previous message unacknowledged) for w, w in {0.4,1.5,2.6 s}. Each lane bounds the broker-side waiting time by its own monotonic timestamps [t(reconnect/ack sent) - t(publish acked), t(delivery or drop report) - t(publish sent)] and asserts 'not delivered + reported expired' only if the lower bound exceeds the lifetime by 300 ms, 'delivered' only if the upper bound is 300 ms below it (otherwise timing_inconclusive); forwarded expiry for v5 subscribers must be present, <= original and within [E-ceil(w_hi), E-floor(w_lo)]. A quarter of the offline/blocked v5 lanes announce Maximum Packet Size 256 and have 1-2 messages of 600 bytes queued directly in front of the lane's message (dropped when the queue is read; the message behind them is judged as always). Non-trivial lane: lifetime set and w >= 0.4 s with a waiting subscriber, or a v5 subscriber receiving a message published with an expiry; cases are distinct by scenario digest, lanes are counted separately.")
 	ev.Run(t, "C12", genC12, runC12)
 }
